@@ -5,7 +5,7 @@ from ..gen import Scenario, op, send, tag_header, TAG_XOR
 
 ID = "C01"
 BUDGET = {"quick": 45, "thorough": 900}
-MAX_RUNS = {"quick": 1500, "thorough": 400000}
+MAX_RUNS = {"quick": 5000, "thorough": 400000}
 RULE = ("plans drawn from a seeded swarm: listener kind (http/socks4/4a/5/reverse/quic, +TLS) x connector kind "
         "(direct/http/socks4/5/quic/loadbalance/chain through the proxy's own listeners, +TLS) x bufferSize x chaos level "
         "(segmentation, short writes/reads, delays, tiny pipes, spurious Pending, task yields) x 1-6 concurrent tunnels x payload "
